@@ -171,6 +171,10 @@ def run_group(cmd, env, tmo):
 def run_harnesses(pid, groups, tier, seed):
     t0 = time.time()
     info = {'harnesses': [], 'trusted': [], 'time_s': 0}
+    import fcntl
+    os.makedirs(os.path.join(VERIF, 'out'), exist_ok=True)
+    flock = open(os.path.join(VERIF, 'out', 'kani.lock'), 'w')
+    fcntl.flock(flock, fcntl.LOCK_EX)          # one scratch copy: Kani runs of concurrent checks are serialised
     with _lock:
         try:
             prepare_scratch(groups)
